@@ -7,6 +7,7 @@ import (
 	"go/constant"
 	"go/token"
 	"go/types"
+	"regexp"
 	"sort"
 	"strings"
 
@@ -67,6 +68,10 @@ type fnTr struct {
 	retType string            // Lean type of the current function's result (without Option)
 	loopTuple string          // non-empty while translating a loop body that contains a return
 	structs map[string]*types.Named // lean struct name -> type
+	subst      map[*ast.CallExpr]string   // immediately-invoked function literals already bound to a temporary
+	nTmp       int
+	tmpOf      map[*ast.CallExpr]string
+	retH       []func(vals []string, d int) string // return handlers of inlined function literals
 	refs       map[string]bool            // groups referenced by the function being translated
 	structRefs map[string]map[string]bool // struct -> groups of the structs it embeds as fields
 	structOrder []string
@@ -133,6 +138,8 @@ type tinfo struct {
 	bits   int
 	signed bool
 	lean   string
+	elem   string // kSlice: Lean type of the elements ("Int" for integer slices)
+	isTime bool   // time.Time (zero value = year 1, not the Unix epoch)
 }
 
 func isTimeType(t types.Type, name string) bool {
@@ -141,53 +148,52 @@ func isTimeType(t types.Type, name string) bool {
 }
 
 func (t *fnTr) typ(ty types.Type) tinfo {
-	if isTimeType(ty, "Time") || isTimeType(ty, "Duration") {
-		return tinfo{kInt, 64, true, "Int"}
+	if isTimeType(ty, "Time") {
+		return tinfo{kind: kInt, bits: 64, signed: true, lean: "Int", isTime: true}
+	}
+	if isTimeType(ty, "Duration") {
+		return tinfo{kind: kInt, bits: 64, signed: true, lean: "Int"}
 	}
 	switch u := ty.Underlying().(type) {
 	case *types.Basic:
 		switch u.Kind() {
 		case types.Bool, types.UntypedBool:
-			return tinfo{kBool, 0, false, "Bool"}
+			return tinfo{kind: kBool, bits: 0, signed: false, lean: "Bool"}
 		case types.Int8:
-			return tinfo{kInt, 8, true, "Int"}
+			return tinfo{kind: kInt, bits: 8, signed: true, lean: "Int"}
 		case types.Int16:
-			return tinfo{kInt, 16, true, "Int"}
+			return tinfo{kind: kInt, bits: 16, signed: true, lean: "Int"}
 		case types.Int32:
-			return tinfo{kInt, 32, true, "Int"}
+			return tinfo{kind: kInt, bits: 32, signed: true, lean: "Int"}
 		case types.Int64, types.Int:
-			return tinfo{kInt, 64, true, "Int"}
+			return tinfo{kind: kInt, bits: 64, signed: true, lean: "Int"}
 		case types.Uint8:
-			return tinfo{kInt, 8, false, "Int"}
+			return tinfo{kind: kInt, bits: 8, signed: false, lean: "Int"}
 		case types.Uint16:
-			return tinfo{kInt, 16, false, "Int"}
+			return tinfo{kind: kInt, bits: 16, signed: false, lean: "Int"}
 		case types.Uint32:
-			return tinfo{kInt, 32, false, "Int"}
+			return tinfo{kind: kInt, bits: 32, signed: false, lean: "Int"}
 		case types.Uint64, types.Uint, types.Uintptr:
-			return tinfo{kInt, 64, false, "Int"}
+			return tinfo{kind: kInt, bits: 64, signed: false, lean: "Int"}
 		case types.UntypedInt, types.UntypedRune:
-			return tinfo{kInt, 0, true, "Int"}
+			return tinfo{kind: kInt, bits: 0, signed: true, lean: "Int"}
 		case types.Float64, types.UntypedFloat:
-			return tinfo{kFloat, 64, true, "Rat"}
+			return tinfo{kind: kFloat, bits: 64, signed: true, lean: "Rat"}
 		}
 	case *types.Slice:
-		if e := t.typ(u.Elem()); e.kind == kInt {
-			return tinfo{kSlice, e.bits, e.signed, "(List Int)"}
-		}
+		return t.sliceOf(u.Elem())
 	case *types.Array:
-		if e := t.typ(u.Elem()); e.kind == kInt {
-			return tinfo{kSlice, e.bits, e.signed, "(List Int)"}
-		}
+		return t.sliceOf(u.Elem())
 	case *types.Struct:
 		if nt, ok := ty.(*types.Named); ok && nt.Obj().Pkg() != nil && structPkgOK(nt.Obj().Pkg().Path()) {
 			n := t.structName(nt)
-			return tinfo{kStruct, 0, false, n}
+			return tinfo{kind: kStruct, bits: 0, signed: false, lean: n}
 		}
 	case *types.Pointer:
 		if nt, ok := u.Elem().(*types.Named); ok {
 			if _, ok := nt.Underlying().(*types.Struct); ok && nt.Obj().Pkg() != nil && structPkgOK(nt.Obj().Pkg().Path()) {
 				n := t.structName(nt)
-				return tinfo{kStruct, 0, false, n}
+				return tinfo{kind: kStruct, bits: 0, signed: false, lean: n}
 			}
 		}
 	}
@@ -204,6 +210,30 @@ func (t *fnTr) fieldTyp(ty types.Type) tinfo {
 
 func structPkgOK(path string) bool {
 	return strings.HasPrefix(path, modPath) || path == "github.com/pion/rtp" || path == "github.com/pion/rtcp"
+}
+
+// sliceOf: a slice/array whose elements are integers (List Int) or values of another supported
+// non-reference type (List τ, generic operations lenG/idxG/setG/…); pointer elements are references.
+func (t *fnTr) sliceOf(el types.Type) tinfo {
+	if _, isPtr := el.Underlying().(*types.Pointer); isPtr {
+		return tinfo{kind: kBad}
+	}
+	e := t.typ(el)
+	switch e.kind {
+	case kInt:
+		return tinfo{kind: kSlice, bits: e.bits, signed: e.signed, lean: "(List Int)", elem: "Int"}
+	case kBool, kFloat, kStruct:
+		return tinfo{kind: kSlice, lean: "(List " + e.lean + ")", elem: e.lean}
+	}
+	return tinfo{kind: kBad}
+}
+
+// generic: slice operations on a non-integer element type use the G-suffixed versions.
+func sop(ti tinfo, name string) string {
+	if ti.elem != "" && ti.elem != "Int" {
+		return name + "G"
+	}
+	return name
 }
 
 func (t *fnTr) structName(nt *types.Named) string {
@@ -224,11 +254,17 @@ func (t *fnTr) structName(nt *types.Named) string {
 		st := nt.Underlying().(*types.Struct)
 		for i := 0; i < st.NumFields(); i++ {
 			ft := st.Field(i).Type()
-			if _, isStruct := ft.Underlying().(*types.Struct); isStruct && !st.Field(i).Embedded() {
-				if fti := t.typ(ft); fti.kind == kStruct {
-					t.structRefs[n][fnGroupOfStruct(fti.lean)] = true
-				}
+			if st.Field(i).Embedded() {
+				continue
 			}
+			// registering the field's type first puts nested structures (also as slice elements) before this one
+			saveRefs := t.refs
+			t.refs = map[string]bool{}
+			t.fieldTyp(ft)
+			for g := range t.refs {
+				t.structRefs[n][g] = true
+			}
+			t.refs = saveRefs
 		}
 		t.structOrder = append(t.structOrder, n)
 	}
@@ -252,16 +288,29 @@ func wrap(ti tinfo, e string) string {
 	return e
 }
 
+var bareNumeral = regexp.MustCompile(`^\(?-?\d+\)?$`)
+
+// ascribe: a `let` whose value is a bare numeral needs its type written out (Lean would elaborate it as Nat).
+func ascribe(ti tinfo, val string) string {
+	if ti.lean != "" && ti.kind != kBad {
+		return " : " + ti.lean
+	}
+	return ""
+}
+
 func zeroOf(ti tinfo) string {
 	switch ti.kind {
 	case kInt:
+		if ti.isTime {
+			return "zeroTime"
+		}
 		return "0"
 	case kBool:
 		return "false"
 	case kFloat:
 		return "(0 : Rat)"
 	case kSlice:
-		return "([] : List Int)"
+		return "([] : " + ti.lean + ")"
 	case kStruct:
 		return "({} : " + ti.lean + ")"
 	}
@@ -271,10 +320,7 @@ func zeroOf(ti tinfo) string {
 // ---- expressions
 
 func intLit(s string) string {
-	if strings.HasPrefix(s, "-") {
-		return "(" + s + ")"
-	}
-	return s
+	return "(" + s + " : Int)"
 }
 
 func (t *fnTr) constExpr(e ast.Expr) (string, bool) {
@@ -333,7 +379,7 @@ func (t *fnTr) expr(e ast.Expr) string {
 		if _, isNil := o.(*types.Nil); isNil {
 			// a nil slice and an empty slice are not distinguished; nil of any other type cannot be
 			// combined with a supported expression, so the context rejects it
-			return "([] : List Int)"
+			return "[]"
 		}
 		if _, isVar := o.(*types.Var); !isVar {
 			t.fail(e, "identifier %s is not a variable", x.Name)
@@ -360,6 +406,11 @@ func (t *fnTr) expr(e ast.Expr) string {
 	case *ast.StarExpr:
 		t.fail(e, "pointer dereference")
 	case *ast.UnaryExpr:
+		if x.Op == token.AND {
+			if cl, ok := ast.Unparen(x.X).(*ast.CompositeLit); ok && t.typ(info.TypeOf(e)).kind == kStruct {
+				return t.composite(cl, info.TypeOf(cl)) // a pointer to a fresh struct is the struct value
+			}
+		}
 		ti := t.typ(info.TypeOf(e))
 		switch x.Op {
 		case token.NOT:
@@ -376,39 +427,86 @@ func (t *fnTr) expr(e ast.Expr) string {
 	case *ast.BinaryExpr:
 		return t.binary(x)
 	case *ast.CallExpr:
+		if s, ok := t.subst[x]; ok {
+			return s
+		}
 		return t.call(x, true)
 	case *ast.IndexExpr:
 		bt := t.typ(info.TypeOf(x.X))
 		if bt.kind != kSlice {
 			t.fail(e, "index into %s", info.TypeOf(x.X))
 		}
-		return "(idx " + t.expr(x.X) + " " + t.expr(x.Index) + ")"
+		return "(" + sop(bt, "idx") + " " + t.expr(x.X) + " " + t.expr(x.Index) + ")"
 	case *ast.CompositeLit:
-		if t.typ(info.TypeOf(e)).kind == kSlice {
-			var el []string
-			for _, v := range x.Elts {
-				if _, kv := v.(*ast.KeyValueExpr); kv {
-					t.fail(e, "keyed slice literal")
-				}
-				el = append(el, t.expr(v))
-			}
-			return "([" + strings.Join(el, ", ") + "] : List Int)"
-		}
-		t.fail(e, "composite literal %s", exprText(e))
+		return t.composite(x, info.TypeOf(e))
 	case *ast.SliceExpr:
-		if t.typ(info.TypeOf(x.X)).kind != kSlice || x.Slice3 {
+		bt := t.typ(info.TypeOf(x.X))
+		if bt.kind != kSlice || x.Slice3 {
 			t.fail(e, "slice expression %s", exprText(e))
 		}
 		r := t.expr(x.X)
 		if x.High != nil {
-			r = "(take " + r + " " + t.expr(x.High) + ")"
+			r = "(" + sop(bt, "take") + " " + r + " " + t.expr(x.High) + ")"
 		}
 		if x.Low != nil {
-			r = "(drop " + r + " " + t.expr(x.Low) + ")"
+			r = "(" + sop(bt, "drop") + " " + r + " " + t.expr(x.Low) + ")"
 		}
 		return r
 	}
 	t.fail(e, "unsupported expression %T %s", e, exprText(e))
+	return ""
+}
+
+// composite literal: a slice of supported elements, or a struct with keyed fields.
+func (t *fnTr) composite(x *ast.CompositeLit, ty types.Type) string {
+	ti := t.typ(ty)
+	switch ti.kind {
+	case kSlice:
+		var el []string
+		var elemT types.Type
+		switch u := ty.Underlying().(type) {
+		case *types.Slice:
+			elemT = u.Elem()
+		case *types.Array:
+			elemT = u.Elem()
+		}
+		for _, v := range x.Elts {
+			if _, kv := v.(*ast.KeyValueExpr); kv {
+				t.fail(x, "keyed slice literal")
+			}
+			if cl, ok := v.(*ast.CompositeLit); ok && cl.Type == nil && elemT != nil {
+				el = append(el, t.composite(cl, elemT)) // elided element type
+			} else {
+				el = append(el, t.expr(v))
+			}
+		}
+		return "([" + strings.Join(el, ", ") + "] : " + ti.lean + ")"
+	case kStruct:
+		var fs []string
+		for _, v := range x.Elts {
+			kv, ok := v.(*ast.KeyValueExpr)
+			if !ok {
+				t.fail(x, "positional struct literal")
+			}
+			id, ok := kv.Key.(*ast.Ident)
+			if !ok {
+				t.fail(x, "struct literal key")
+			}
+			fo, _ := t.p.TypesInfo.ObjectOf(id).(*types.Var)
+			if fo == nil || t.fieldTyp(fo.Type()).kind == kBad {
+				t.fail(x, "field %s of the literal has unsupported type", id.Name)
+			}
+			var val string
+			if cl, ok := kv.Value.(*ast.CompositeLit); ok && cl.Type == nil {
+				val = t.composite(cl, fo.Type())
+			} else {
+				val = t.expr(kv.Value)
+			}
+			fs = append(fs, fieldLean(id.Name)+" := "+val)
+		}
+		return "({ " + strings.Join(fs, ", ") + " } : " + ti.lean + ")"
+	}
+	t.fail(x, "composite literal %s", exprText(x))
 	return ""
 }
 
@@ -438,9 +536,9 @@ func (t *fnTr) binary(x *ast.BinaryExpr) string {
 				t.fail(x, "slice comparison")
 			}
 			if x.Op == token.EQL {
-				return "(decide (len " + a + " = 0))"
+				return "(decide (" + sop(lt, "len") + " " + a + " = 0))"
 			}
-			return "(decide (len " + a + " ≠ 0))"
+			return "(decide (" + sop(lt, "len") + " " + a + " ≠ 0))"
 		}
 		if lt.kind == kBool {
 			if x.Op == token.EQL {
@@ -545,10 +643,11 @@ func (t *fnTr) call(call *ast.CallExpr, asExpr bool) string {
 		if _, isB := info.Uses[id].(*types.Builtin); isB {
 			switch id.Name {
 			case "len":
-				if t.typ(info.TypeOf(call.Args[0])).kind != kSlice {
+				lt := t.typ(info.TypeOf(call.Args[0]))
+				if lt.kind != kSlice {
 					t.fail(call, "len of %s", info.TypeOf(call.Args[0]))
 				}
-				return "(len " + t.expr(call.Args[0]) + ")"
+				return "(" + sop(lt, "len") + " " + t.expr(call.Args[0]) + ")"
 			case "min", "max":
 				ti := t.typ(info.TypeOf(call))
 				if ti.kind != kInt {
@@ -560,8 +659,12 @@ func (t *fnTr) call(call *ast.CallExpr, asExpr bool) string {
 				}
 				return s
 			case "make":
-				if t.typ(info.TypeOf(call)).kind != kSlice || len(call.Args) != 2 {
+				mt := t.typ(info.TypeOf(call))
+				if mt.kind != kSlice || len(call.Args) != 2 {
 					t.fail(call, "make of %s", info.TypeOf(call))
+				}
+				if mt.elem != "Int" {
+					return "(mkSliceG (α := " + mt.elem + ") " + t.expr(call.Args[1]) + ")"
 				}
 				return "(mkSlice " + t.expr(call.Args[1]) + ")"
 			case "append":
@@ -599,6 +702,8 @@ func (t *fnTr) call(call *ast.CallExpr, asExpr bool) string {
 					return "(decide (" + r + " > " + t.expr(call.Args[0]) + "))"
 				case isTime && fn.Name() == "Equal":
 					return "(decide (" + r + " = " + t.expr(call.Args[0]) + "))"
+				case isTime && fn.Name() == "IsZero":
+					return "(decide (" + r + " = zeroTime))"
 				case isTime && fn.Name() == "UnixNano":
 					return r
 				case isTime && fn.Name() == "Add":
@@ -691,7 +796,7 @@ func (t *fnTr) assignTo(lhs ast.Expr, val string, d int) string {
 		if t.typ(o.Type()).kind == kBad {
 			t.fail(lhs, "variable %s has unsupported type %s", l.Name, o.Type())
 		}
-		return ind(d) + "let " + t.name(o) + " := " + val + "\n"
+		return ind(d) + "let " + t.name(o) + ascribe(t.typ(o.Type()), val) + " := " + val + "\n"
 	case *ast.SelectorExpr:
 		sel, ok := info.Selections[l]
 		if !ok || sel.Kind() != types.FieldVal || len(sel.Index()) != 1 {
@@ -703,10 +808,11 @@ func (t *fnTr) assignTo(lhs ast.Expr, val string, d int) string {
 		inner := "{ " + t.expr(l.X) + " with " + fieldLean(l.Sel.Name) + " := " + val + " }"
 		return t.assignTo(l.X, inner, d)
 	case *ast.IndexExpr:
-		if t.typ(info.TypeOf(l.X)).kind != kSlice {
+		lt := t.typ(info.TypeOf(l.X))
+		if lt.kind != kSlice {
 			t.fail(lhs, "indexed assignment into %s", info.TypeOf(l.X))
 		}
-		inner := "(set " + t.expr(l.X) + " " + t.expr(l.Index) + " " + val + ")"
+		inner := "(" + sop(lt, "set") + " " + t.expr(l.X) + " " + t.expr(l.Index) + " " + val + ")"
 		return t.assignTo(l.X, inner, d)
 	}
 	t.fail(lhs, "assignment target %s", exprText(lhs))
@@ -829,6 +935,9 @@ func (t *fnTr) stmts(list []ast.Stmt, d int, k cont) string {
 	}
 	rest := func(d int) string { return t.stmts(list[1:], d, k) }
 	info := t.p.TypesInfo
+	if call := t.findIIFE(list[0]); call != nil {
+		return t.inlineIIFE(call, d, func(d int) string { return t.stmts(list, d, k) })
+	}
 	switch s := list[0].(type) {
 	case *ast.EmptyStmt:
 		return rest(d)
@@ -866,7 +975,7 @@ func (t *fnTr) stmts(list []ast.Stmt, d int, k cont) string {
 				if i < len(vs.Values) {
 					v = t.expr(vs.Values[i])
 				}
-				out += ind(d) + "let " + t.name(o) + " := " + v + "\n"
+				out += ind(d) + "let " + t.name(o) + ascribe(ti, v) + " := " + v + "\n"
 			}
 		}
 		return out + rest(d)
@@ -919,6 +1028,9 @@ func (t *fnTr) stmts(list []ast.Stmt, d int, k cont) string {
 		for _, r := range s.Results {
 			vals = append(vals, t.expr(r))
 		}
+		if n := len(t.retH); n > 0 {
+			return t.retH[n-1](vals, d)
+		}
 		if len(s.Results) == 0 && t.cur.nres > 0 {
 			t.fail(s, "naked return with named results")
 		}
@@ -952,6 +1064,125 @@ func (t *fnTr) stmts(list []ast.Stmt, d int, k cont) string {
 	}
 	t.fail(list[0], "unsupported statement %T", list[0])
 	return ""
+}
+
+// findIIFE: the first immediately-invoked function literal `func() T {…}()` in the expressions of a
+// simple statement (or of an if/switch header) that has not been bound to a temporary yet.
+func (t *fnTr) findIIFE(st ast.Stmt) *ast.CallExpr {
+	var roots []ast.Node
+	switch s := st.(type) {
+	case *ast.AssignStmt, *ast.ReturnStmt, *ast.ExprStmt, *ast.DeclStmt, *ast.IncDecStmt:
+		roots = append(roots, s)
+	case *ast.IfStmt:
+		if s.Init == nil && s.Cond != nil {
+			roots = append(roots, s.Cond)
+		}
+	case *ast.SwitchStmt:
+		if s.Init == nil && s.Tag != nil {
+			roots = append(roots, s.Tag)
+		}
+	}
+	var found *ast.CallExpr
+	for _, r := range roots {
+		ast.Inspect(r, func(n ast.Node) bool {
+			if found != nil {
+				return false
+			}
+			switch x := n.(type) {
+			case *ast.CallExpr:
+				if _, ok := ast.Unparen(x.Fun).(*ast.FuncLit); ok {
+					if _, done := t.subst[x]; !done {
+						found = x
+					}
+					return false // its body is translated when it is inlined
+				}
+			case *ast.FuncLit:
+				return false
+			}
+			return true
+		})
+	}
+	return found
+}
+
+// inlineIIFE translates the body of `func(params) T { … }(args)` in place: parameters are bound, every
+// `return e` binds a fresh temporary to e and continues with `rest`, where the call expression reads the
+// temporary.  Variables of the enclosing function are visible by name, as in Go.
+func (t *fnTr) inlineIIFE(call *ast.CallExpr, d int, rest cont) string {
+	lit := ast.Unparen(call.Fun).(*ast.FuncLit)
+	info := t.p.TypesInfo
+	nres := 0
+	resLean := ""
+	if lit.Type.Results != nil {
+		for _, fl := range lit.Type.Results.List {
+			if len(fl.Names) > 0 {
+				t.fail(lit, "named results in a function literal")
+			}
+			rti := t.typ(info.TypeOf(fl.Type))
+			if rti.kind == kBad {
+				t.fail(lit, "function literal result type %s", info.TypeOf(fl.Type))
+			}
+			resLean = rti.lean
+			nres++
+		}
+	}
+	if nres != 1 {
+		t.fail(lit, "function literal with %d results", nres)
+	}
+	ast.Inspect(lit.Body, func(n ast.Node) bool {
+		if f, ok := n.(*ast.ForStmt); ok {
+			ast.Inspect(f.Body, func(m ast.Node) bool {
+				if _, isRet := m.(*ast.ReturnStmt); isRet {
+					t.fail(m, "return inside a loop inside a function literal")
+				}
+				return true
+			})
+		}
+		return true
+	})
+	out := ""
+	k := 0
+	for _, fl := range lit.Type.Params.List {
+		for _, n := range fl.Names {
+			if k >= len(call.Args) {
+				t.fail(call, "variadic function literal")
+			}
+			o := info.ObjectOf(n)
+			if t.typ(o.Type()).kind == kBad {
+				t.fail(lit, "function literal parameter %s", n.Name)
+			}
+			out += ind(d) + "let " + t.name(o) + " := " + t.expr(call.Args[k]) + "\n"
+			k++
+		}
+	}
+	tmp, ok := t.tmpOf[call]
+	if !ok {
+		t.nTmp++
+		tmp = fmt.Sprintf("__f%d", t.nTmp)
+		t.tmpOf[call] = tmp
+	}
+	// the temporary is in scope only in the code that follows a `return` of the literal: the binding is
+	// recorded while that continuation is translated and removed again (the continuation is translated once
+	// per path that reaches it)
+	var handler func(vals []string, d int) string
+	handler = func(vals []string, d int) string {
+		t.retH = t.retH[:len(t.retH)-1]
+		t.subst[call] = tmp
+		s := ind(d) + "let " + tmp + " : " + resLean + " := " + vals[0] + "\n" + rest(d)
+		delete(t.subst, call)
+		t.retH = append(t.retH, handler)
+		return s
+	}
+	t.retH = append(t.retH, handler)
+	saveLoop := t.loopTuple
+	t.loopTuple = ""
+	out += t.stmts(lit.Body.List, d, func(int) string {
+		t.fail(lit, "function literal may fall off its end")
+		return ""
+	})
+	t.loopTuple = saveLoop
+	t.retH = t.retH[:len(t.retH)-1]
+	return out
 }
 
 func (t *fnTr) switchStmt(s *ast.SwitchStmt, d int, rest cont) string {
@@ -1248,6 +1479,10 @@ func (t *fnTr) function(fd *ast.FuncDecl, fi *fnInfo) (src string, err error) {
 	}()
 	info := t.p.TypesInfo
 	t.cur = fi
+	t.subst = map[*ast.CallExpr]string{}
+	t.tmpOf = map[*ast.CallExpr]string{}
+	t.retH = nil
+	t.nTmp = 0
 	t.names = map[types.Object]string{}
 	t.used = map[string]int{}
 	t.recv = nil
@@ -1446,7 +1681,8 @@ func genFnDefs(w *world, dump bool, group string) string {
 		if cnt == 0 {
 			sb.WriteString("  dummy : Unit := ()\n")
 		}
-		sb.WriteString("deriving Repr, DecidableEq\n\n")
+		sb.WriteString("deriving Repr, DecidableEq\n")
+		fmt.Fprintf(&sb, "instance : Inhabited %s := ⟨({} : %s)⟩\n\n", n, n)
 		structSrc = append(structSrc, sb.String())
 	}
 	delete(imports, group)
